@@ -5,11 +5,19 @@
   code keeps the two exceptions the Python code could raise on its failing paths (`ValueError` of `list.index`, `IndexError` of the
   subscript); the theorem shows that neither is reachable — `check in L[::2]` implies `check in L` — so that the model's
   totalisation (`findIdx`, `getD`) is exact.
+
+  The proof covers both ways of finding the divisor: `L[L.index(check) // 2]` and `L[L[::2].index(check)]` (equal because the eight
+  entries of `EIGHTH_ROOTS_OF_UNITY` are pairwise different, `eighth_roots_nodup`), the test written `check in ..` / `check not in ..`
+  with an early `return None`, and the final choice as a conditional expression or as `if ..: return ..` / `return ..`.
 -/
 import PyEcc.Gen.ExtraHashCodec
 
 namespace PyEcc.Tie
 open PyEcc PyEcc.Gen.Consts
+set_option linter.unusedSimpArgs false
+
+/-- close `pure v = Except.ok v'` when `v`, `v'` agree syntactically (fails at once otherwise: nothing is unfolded) -/
+macro "tie_ok" : tactic => `(tactic| (show Except.ok _ = Except.ok _; with_reducible rfl))
 
 /-- `x in L[::2]` implies `x in L` -/
 theorem mem_everyOther {α : Type} (c : α) : ∀ (L : List α), c ∈ everyOther L → c ∈ L
@@ -21,31 +29,71 @@ theorem mem_everyOther {α : Type} (c : α) : ∀ (L : List α), c ∈ everyOthe
     · exact Or.inl h
     · exact Or.inr (Or.inr (mem_everyOther c rest h))
 
-/-- `L.index(c)` and `L[L.index(c) // 2]` cannot fail when `c in L[::2]` -/
-theorem index_ok {α : Type} [BEq α] [LawfulBEq α] [Inhabited α] (L : List α) (c : α) (h : (everyOther L).contains c = true) :
+/-- in a list without repetitions, an entry of `L[::2]` sits in `L` at twice its position in `L[::2]`:
+    `L.index(c) // 2 == L[::2].index(c)` -/
+theorem findIdx_everyOther {α : Type} [BEq α] [LawfulBEq α] (c : α) :
+    ∀ (L : List α), L.Nodup → c ∈ everyOther L →
+      List.findIdx (fun r => r == c) L = 2 * List.findIdx (fun r => r == c) (everyOther L)
+  | [], _, h => by simp [everyOther] at h
+  | [a], _, h => by
+    have : a = c := by simpa [everyOther, eq_comm] using h
+    subst this
+    simp [everyOther, List.findIdx_cons]
+  | a :: b :: rest, hnd, h => by
+    simp only [everyOther, List.mem_cons] at h
+    by_cases hac : a = c
+    · subst hac; simp [everyOther, List.findIdx_cons]
+    · have hm : c ∈ everyOther rest := by
+        rcases h with h | h
+        · exact absurd h.symm hac
+        · exact h
+      have hnd' := hnd
+      simp only [List.nodup_cons, List.mem_cons, not_or] at hnd'
+      have hbc : b ≠ c := fun hbc => hnd'.2.1 (hbc ▸ mem_everyOther c rest hm)
+      have ih := findIdx_everyOther c rest hnd'.2.2 hm
+      have h1 : (a == c) = false := by simpa using hac
+      have h2 : (b == c) = false := by simpa using hbc
+      simp only [everyOther, List.findIdx_cons, h1, h2, cond_false, ih]
+      omega
+
+/-- the eight entries of `EIGHTH_ROOTS_OF_UNITY` are pairwise different -/
+theorem eighth_roots_nodup : EIGHTH_ROOTS_OF_UNITY.Nodup := by decide +kernel
+
+/-- when `c in L[::2]` (for a repetition-free `L`): `L.index(c)`, `L[::2].index(c)` are found, `L[L.index(c) // 2]` and
+    `L[L[::2].index(c)]` are in range, and they are the same entry — the one the model picks with its totalised `getD` -/
+theorem index_ok {α : Type} [BEq α] [LawfulBEq α] [Inhabited α] (L : List α) (hnd : L.Nodup) (c : α)
+    (h : (everyOther L).contains c = true) :
     List.findIdx (fun r => r == c) L < L.length
-      ∧ L[List.findIdx (fun r => r == c) L / 2]? = some (L.getD (List.findIdx (fun r => r == c) L / 2) default) := by
-  have hm : c ∈ L := mem_everyOther c L (List.contains_iff_mem.mp h)
+      ∧ L[List.findIdx (fun r => r == c) L / 2]? = some (L.getD (List.findIdx (fun r => r == c) L / 2) default)
+      ∧ List.findIdx (fun r => r == c) (everyOther L) < (everyOther L).length
+      ∧ L[List.findIdx (fun r => r == c) (everyOther L)]?
+          = some (L.getD (List.findIdx (fun r => r == c) L / 2) default) := by
+  have hme : c ∈ everyOther L := List.contains_iff_mem.mp h
+  have hm : c ∈ L := mem_everyOther c L hme
   have hlt : List.findIdx (fun r => r == c) L < L.length :=
     List.findIdx_lt_length_of_exists ⟨c, hm, beq_self_eq_true c⟩
+  have hlte : List.findIdx (fun r => r == c) (everyOther L) < (everyOther L).length :=
+    List.findIdx_lt_length_of_exists ⟨c, hme, beq_self_eq_true c⟩
   have hlt2 : List.findIdx (fun r => r == c) L / 2 < L.length := Nat.lt_of_le_of_lt (Nat.div_le_self _ _) hlt
-  refine ⟨hlt, ?_⟩
-  rw [List.getD_eq_getElem?_getD, List.getElem?_eq_getElem hlt2, Option.getD_some]
+  have hhalf : List.findIdx (fun r => r == c) (everyOther L) = List.findIdx (fun r => r == c) L / 2 := by
+    rw [findIdx_everyOther c L hnd hme]; omega
+  refine ⟨hlt, ?_, hlte, ?_⟩
+  · rw [List.getD_eq_getElem?_getD, List.getElem?_eq_getElem hlt2, Option.getD_some]
+  · rw [hhalf, List.getD_eq_getElem?_getD, List.getElem?_eq_getElem hlt2, Option.getD_some]
 
 /-- `modular_squareroot_in_FQ2(value)` as translated from the source (the candidate `value ** ((FQ2_ORDER + 8) // 16)`, the test
-    `check in EIGHTH_ROOTS_OF_UNITY[::2]`, the division by `EIGHTH_ROOTS_OF_UNITY[EIGHTH_ROOTS_OF_UNITY.index(check) // 2]`, the
-    choice between `x1` and `-x1` by imaginary then real part, `None` otherwise) never raises and returns the model's
-    `modularSquarerootInFq2 value`. -/
+    `check in EIGHTH_ROOTS_OF_UNITY[::2]`, the division by the root of `check` — `EIGHTH_ROOTS_OF_UNITY[k]` where `check` is the
+    entry `2 * k` —, the choice between `x1` and `-x1` by imaginary then real part, `None` otherwise) never raises and returns the
+    model's `modularSquarerootInFq2 value`. -/
 theorem modular_squareroot_in_FQ2_eq (value : F2) :
     Gen.ExtraHashCodec.modular_squareroot_in_FQ2 value = .ok (modularSquarerootInFq2 value) := by
   unfold Gen.ExtraHashCodec.modular_squareroot_in_FQ2 modularSquarerootInFq2
   simp only []
   by_cases h : (everyOther EIGHTH_ROOTS_OF_UNITY).contains
       ((value ^ ((blsconst_FQ2_ORDER + 8) / 16)) ^ 2 / value) = true
-  · obtain ⟨h1, h2⟩ := index_ok EIGHTH_ROOTS_OF_UNITY _ h
-    simp only [h, h1, if_true, pure_bind, h2]
-    rfl
-  · simp only [h]
-    rfl
-
+  · obtain ⟨h1, h2, h3, h4⟩ := index_ok EIGHTH_ROOTS_OF_UNITY eighth_roots_nodup _ h
+    simp only [h, h1, h2, h3, h4, if_true, pure_bind, not_true_eq_false, if_false]
+    split <;> tie_ok
+  · simp only [h, not_false_eq_true, Bool.false_eq_true, if_true, if_false]
+    tie_ok
 end PyEcc.Tie
